@@ -47,6 +47,11 @@ func Gen(t *rapid.T) *Case {
 		}
 		c.Edges = append(c.Edges, Edge{From: a, To: b})
 	}
+	if len(c.Edges) > 0 && rapid.IntRange(0, 2).Draw(t, "scribbling") == 0 {
+		for i := range c.Edges {
+			c.Edges[i].Scribble = rapid.Bool().Draw(t, "scribble")
+		}
+	}
 	if len(c.Edges) > 0 && rapid.Bool().Draw(t, "hasFail") {
 		c.Edges[rapid.IntRange(0, len(c.Edges)-1).Draw(t, "failIdx")].Fail = true
 	}
